@@ -192,6 +192,17 @@ def run(ctx):
         flags = [-1, -2, -3, -4, -5, -6, -7, -8]
         argv0 = [3, 0, csv(flags), csv([0.0, 0.5]), csv([0, 99]), 0, repr(3.15e7), "-", cap]
         argv, res = run_drv((drv, argv0))
+        if "crash" in res:
+            d2, drv2, err2 = build_harness(ctx.scratch, "cusparse", asan=True)
+            detail = "no report under the sanitizer"
+            if drv2 is not None:
+                try:
+                    a0, r0 = run_drv((drv2, argv0))
+                    detail = r0.get("detail") or (f"killed by signal {-r0.get('crash', 0)}" if "crash" in r0 else detail)
+                finally:
+                    shutil.rmtree(d2, ignore_errors=True)
+            ctx.violation(f"C19:cusparse:{'heap-or-stack-overflow' if 'overflow' in detail else 'memory-error'}", f"cusparse: the rendered Solve accesses memory outside its objects: {detail}", {"backend": "cusparse", "argv": argv0[:8], "choices": [], "crash": True})
+            res = {"runs": 0, "success": 0, "fail": 0, "capped": False, "deepest_level": [0] * 8, "violations": 0}
         total += res["runs"]
         per_pass["cusparse:single-call"] = {"runs": res["runs"], "success": res["success"], "fail": res["fail"], "capped": res["capped"], "deepest_level": res["deepest_level"]}
         if res["violations"]:
